@@ -137,6 +137,11 @@ func (i *Inserter) IngestTableFromSorter(columns []string, pk []uint32) ([]byte,
 	sorterErrChan := make(chan error, 1)
 	i.blocks = i.sorter.SortedBlocks(ctx, nil, sorterErrChan)
 	sum, err := i.ingestTableFromBlocks(columns, pk)
+	// if the workers stopped early (error) the sorter goroutine is still running:
+	// stop it and wait for it before closing the channel it may send on
+	cancel()
+	for range i.blocks {
+	}
 	close(sorterErrChan)
 	if sortErr, ok := <-sorterErrChan; ok {
 		return nil, sortErr
